@@ -82,6 +82,12 @@ def eval_case(spec, case, traces, out, record=True):
             out.validated += 1
         for msg in spec.oracle(case, trace, backend):
             probs.append(("oracle", f"{backend}: {msg}", backend, None))
+        for (o, ri, rm) in trace:
+            if o.startswith("mark harness-panic"):
+                # the harness could not observe the implementation (a dump / walk / bookkeeping step met
+                # an error that never occurs on a store the property allows)
+                probs.append(("oracle", f"{backend}: the state could not be observed after `{o.split()[2].replace('_', ' ')}`: {o.split('::', 1)[-1].strip().replace('_', ' ')[:200]}", backend, None))
+                break
         if record:
             out.evaluations += 1
             if spec.nontrivial(case, trace):
